@@ -377,6 +377,9 @@ def property_aliases(idx, cls):
                         e = e[1]
                     if e == ('name', 'self') and v != ('name', 'self'):
                         out.setdefault(('attr', ('name', 'self'), name), v)
+                    elif v[0] == 'tuple' and v[1] and all(x[0] == 'attr' and x[1] == ('name', 'self') for x in v[1]) and name.startswith("_"):
+                        # a private record of attributes: return (self.a, self.b, ...)
+                        out.setdefault(('attr', ('name', 'self'), name), v)
                 elif body and isinstance(body[-1], ast.Return) and body[-1].value is not None and \
                         all(isinstance(s, ast.Assign) for s in body[:-1]) and len(f.params) == 1:
                     # a getter that unpacks a private record first:  a, _ = self._params; return a
@@ -448,6 +451,23 @@ def constructor_facts(idx, cls, prop_aliases):
                 port = ('attr', ('name', 'self'), name)
                 out[('call', ('name', 'len'), (('attr', port, 'sel'),), ())] = in_self_terms(('bin', '//', dw, gr))
     return out
+
+
+def log2_arg(c, e):
+    """X when e is a base-2 logarithm of X written in one of the forms that agree on powers of two:
+    exact_log2(X), X.bit_length() - 1, (X - 1).bit_length().  None otherwise."""
+    e = c.norm(e)
+    if e[0] == 'call' and e[1] == ('name', 'exact_log2') and len(e[2]) == 1:
+        return e[2][0]
+    if e[0] == 'lin' and e[1] == -1 and len(e[2]) == 1 and e[2][0][1] == 1:
+        t = e[2][0][0]
+        if t[0] == 'call' and t[1][0] == 'attr' and t[1][2] == 'bit_length' and not t[2]:
+            return t[1][1]
+    if e[0] == 'call' and e[1][0] == 'attr' and e[1][2] == 'bit_length' and not e[2]:
+        r = e[1][1]
+        if r[0] == 'lin' and r[1] == -1 and len(r[2]) == 1 and r[2][0][1] == 1:
+            return r[2][0][0]
+    return None
 
 
 def _base_of(e):
@@ -570,6 +590,9 @@ def single_unconditional(rep, rule, c, what, target, domain, value, env=None):
     """target has, in effect, the unconditional value `value` in `domain` (decision function, not statement count)."""
     ds = c.drivers_of(target)
     doms = {d.domain for d in ds}
+    if not ds and c.overlapping(target):
+        rep.unk(rule, c.fi.site, what, f"{c.show(target)} is " + "driven bit by bit / slice by slice; the rule compares the signal as a whole and does not assemble it")
+        return False
     if not ds:
         rep.bad(rule, c.fi.site, what, f"{c.show(target)} is never driven")
         return False
@@ -790,10 +813,14 @@ def _arith_atoms(c, formula):
         e = c.eng.atom_ir.get(a)
         if e is None or e[0] in ('caseatom', 'defaultatom'):
             continue
-        if any(x[0] == 'bin' and x[1] in ('%', '//', '**') or x[0] == 'nary' and x[1] == '*' or x[0] == 'ceildiv' for x in ir.walk(e)):
+        if any(x[0] == 'bin' and x[1] in ('%', '//', '**', '<<', '>>') or x[0] == 'nary' and x[1] in ('*', '&', '|', '^') or
+               x[0] == 'ceildiv' or (x[0] == 'call' and x[1][0] == 'attr' and x[1][2] == 'bit_length') for x in ir.walk(e)):
             names = frozenset(x[1] if x[0] == 'name' else x[2] for x in ir.walk(e)
                               if x[0] == 'name' or (x[0] == 'attr' and x[1] == ('name', 'self')))
-            out.append((names, a))
+            ops = tuple(sorted(str(x[1]) if x[0] in ('bin', 'nary', 'cmp') else ('ceildiv' if x[0] == 'ceildiv' else 'bit_length')
+                               for x in ir.walk(e) if x[0] in ('bin', 'nary', 'cmp', 'ceildiv') or
+                               (x[0] == 'call' and x[1][0] == 'attr' and x[1][2] == 'bit_length')))
+            out.append((names, a, ops))
     return out
 
 
@@ -807,13 +834,17 @@ def check_refusal(rep, rule, c, what, cond_texts, exc, env=None, loop_values=Non
             wants = [c.eng.cond(c.parse(t, e2)) for t in ([cond_texts] if isinstance(cond_texts, str) else cond_texts)]
             wa = [x for w in wants for x in _arith_atoms(c, w)]
             if wa:
+                wops = {o for _, _, o in wa}
+                wa = [(n_, t_) for n_, t_, _ in wa]
                 def strip(ns):
                     return {n.lstrip("_") for n in ns}
                 for conds, e, loops, ln, via in raise_sites(c):
                     if exc is not None and e != exc:
                         continue
                     f = _formula(c, conds)
-                    for names, a in _arith_atoms(c, f):
+                    for names, a, ops in _arith_atoms(c, f):
+                        if ops in wops:
+                            continue                    # the same arithmetic with another operand is a different test, not a variant
                         if any(strip(names) >= strip(wn) and a != wt for wn, wt in wa) and not any(a == wt for _, wt in wa):
                             rep.unk(rule, c.fi.site, what, f"{detail}; but `raise {e}` at line {ln} tests `{a}`, other arithmetic over the same "
                                     "quantities, which may be the same condition: not decided")
